@@ -24,9 +24,13 @@ class Cls(Re):
         self.neg = neg
 
     def py(self):
+        # a single byte >= 0x80 is written as itself (a literal non-ASCII byte in the pattern source, as in
+        # re.compile("➜ ".encode())), everything else as a \\xNN escape
         body = b"".join(
-            (b"\\x%02x" % a) if a == b else (b"\\x%02x-\\x%02x" % (a, b)) for a, b in self.ranges
+            (bytes([a]) if a >= 0x80 else b"\\x%02x" % a) if a == b else (b"\\x%02x-\\x%02x" % (a, b)) for a, b in self.ranges
         )
+        if not self.neg and len(self.ranges) == 1 and self.ranges[0][0] == self.ranges[0][1] >= 0x80:
+            return bytes([self.ranges[0][0]])       # a bare literal byte, so that consecutive ones form UTF-8 text
         if not self.ranges:
             # empty class: never matches / always matches
             return b"[\\x00-\\xff]" if self.neg else b"[^\\x00-\\xff]"
